@@ -654,7 +654,14 @@ class System:
             m.currentspace = m.updater.new_space(m)
             return m.currentspace
 
+    def check_open(self, model):
+        """A closed model must not act on an open model of the same name"""
+        if self.models.get(model.name) is not model:
+            raise KeyError("Model '%s' is closed" % model.name)
+
     def close_model(self, model):
+        if self.models.get(model.name) is not model:
+            return      # Already closed: leave a namesake alone
         model.refmgr.del_all_spec()
         # IOs whose specs were never bound to a reference,
         # e.g. those of a model whose loading failed half-way
